@@ -8,6 +8,12 @@ A property module provides
     run_case(case)         -> dict (see ``_norm``)
     setup_worker()         -> optional, once per worker after fork
     finish(agg, tier)      -> optional, extra global oracle over ``agg.extra``
+    history_cases(tier)    -> optional, a short list of cases that differ in
+                              the options / objects they use; every ordered
+                              pair (X, Y) is run as X then Y in one process
+                              and Y is judged by run_case as usual (a second
+                              run of the programmatic API must not inherit
+                              anything from the first)
     BOUND[tier]            -> text describing the completed bound
 
 ``run_case`` result keys (all optional except none):
@@ -32,6 +38,7 @@ import time
 import traceback
 
 from . import env
+from .hang import RunHang as runrt_RunHang
 
 NPROC = int(os.environ.get('VT_NPROC', '0')) or min(16, os.cpu_count() or 4)
 CHUNK = 64
@@ -79,6 +86,23 @@ def _strip(res):
     })
 
 
+def run_one(mod, case):
+    """run_case, or for ['__after__', X, Y]: X (not judged), then Y (judged)."""
+    if isinstance(case, (list, tuple)) and len(case) == 3 and case[0] == '__after__':
+        mod.run_case(case[1])
+        res = dict(mod.run_case(case[2]) or {})
+        if res.get('violations'):
+            res['violations'] = [
+                dict(v, sig=dict(v.get('sig') or {}, after_another_run=True),
+                     detail='(second run in one process; the run before it was %s)\n%s'
+                            % (canon(case[1])[:600], v.get('detail') or ''))
+                for v in res['violations']]
+        res['counters'] = dict(res.get('counters') or {}, history_pairs=1)
+        res['outcome'] = ('after', canon(res.get('outcome')))
+        return res
+    return mod.run_case(case)
+
+
 def _work(args):
     chunk, gate = args
     out = {
@@ -89,9 +113,9 @@ def _work(args):
     }
     for case in chunk:
         try:
-            res = _MOD.run_case(case) or {}
+            res = run_one(_MOD, case) or {}
             if (gate or res.get('violations')) and not res.get('nogate'):
-                res2 = _MOD.run_case(case) or {}
+                res2 = run_one(_MOD, case) or {}
                 if _strip(res) != _strip(res2):
                     if res.get('violations') or res2.get('violations'):
                         # the same case judged differently the second time in
@@ -111,6 +135,11 @@ def _work(args):
                             % (canon(case)[:2000], _strip(res)[:2000],
                                _strip(res2)[:2000]))
                         continue
+        except runrt_RunHang as e:
+            res = {'violations': [{
+                'clause': 'run_does_not_terminate', 'sig': {},
+                'detail': 'the in-process run (inline threads, atomic children: every poll iteration is deterministic) kept polling: %s' % str(e)[-2500:]}],
+                'outcome': 'run hangs'}
         except Exception as e:
             tb = traceback.extract_tb(e.__traceback__)
             if tb and tb[-1].filename.startswith(env.REPO_SRC):
@@ -308,6 +337,10 @@ def run_check(mod, tier, seed, chunk=None, gate_n=48):
     flt = _env_pass_filter(mod)
     if flt is not None:
         gen = (c for c in gen if flt(c))
+    elif hasattr(mod, 'history_cases'):
+        hs = list(mod.history_cases(tier))
+        gen = itertools.chain(gen, (['__after__', x, y] for i, x in enumerate(hs)
+                                    for j, y in enumerate(hs) if i != j))
     first_cases = []
 
     def feed():
@@ -460,7 +493,7 @@ def replay(mod, path):
         return subprocess.call([env.PY] + list(ep.get('argv') or []) +
                                [os.path.join(env.LIB, 'vt', 'main.py'), mod.ID, '--replay', path], env=e)
     _init_worker(mod.__name__)
-    res = mod.run_case(body['case']) or {}
+    res = run_one(mod, body['case']) or {}
     vs = res.get('violations') or []
     known = load_known()
     rc = 0
